@@ -23,7 +23,7 @@ import sys
 import zipfile
 import zlib
 
-SYNTH_DIR = "/tmp/c06_synth_v4"
+SYNTH_DIR = "/tmp/c06_synth_v5"
 
 WORKER = r'''
 import sys, io, json, glob, hashlib, logging, dataclasses, os
@@ -51,8 +51,16 @@ def streams(obj, seen, out, depth=0):
 def js(r):
     return json.dumps(r.to_json(), sort_keys=True, default=str)
 
+def listing(r):
+    """What the listings of a result return (texts of the units, sizes of the image / table listings)."""
+    return [[u.get_text() for u in r.iterate_units()], len(list(r.iterate_images())), len(list(r.iterate_tables()))]
+
 def observe(r):
-    r.get_full_text(); list(r.iterate_units()); imgs = list(r.iterate_images()); list(r.iterate_tables()); r.get_metadata()
+    r.get_full_text(); list(r.iterate_units()); imgs = list(r.iterate_images()); tabs = list(r.iterate_tables()); r.get_metadata()
+    for t in tabs:                       # a consumer looks at the tables it was handed
+        for name in ("get_table", "get_dim"):
+            if hasattr(t, name):
+                getattr(t, name)()
     for u in r.iterate_units():
         u.get_text(); u.get_images(); u.get_tables(); u.get_metadata()
     for im in imgs:                      # a consumer reads the picture it was handed
@@ -85,13 +93,15 @@ for f in files:
         res = list(ex(buf, f))
         j1 = [js(r) for r in res]
         rec = {"digest": hashlib.sha256("".join(j1).encode()).hexdigest(), "json": j1, "buffer_unchanged": buf.getvalue() == data,
-               "observer_stable": True, "repeat_stable": True}
+               "observer_stable": True, "repeat_stable": True, "history": []}
+        full = []
         for r in res:
             before = js(r)
             observe(r)
             after = js(r)
             if before != after:
                 rec["observer_stable"] = False
+            full.append(listing(r))
         # the same bytes again in this process, the caller's cursor somewhere else
         b2 = io.BytesIO(data)
         b2.seek(min(7, len(data)))
@@ -100,6 +110,12 @@ for f in files:
             rec["repeat_stable"] = False
         if b2.getvalue() != data:
             rec["buffer_unchanged"] = False
+        # a consumer that only peeks at the first unit / image / table, then lists everything: same listing as on the first result
+        for r, want in zip(res2, full):
+            for meth in ("iterate_units", "iterate_images", "iterate_tables"):
+                next(iter(getattr(r, meth)()), None)
+            if listing(r) != want:
+                rec["history"].append("listing after a partially consumed iteration differs from a full first iteration")
         # without a path (in-memory download)
         try:
             b3 = io.BytesIO(data)
@@ -109,8 +125,13 @@ for f in files:
             rec["nopath_digest"] = hashlib.sha256("".join(j3).encode()).hexdigest()
             if [js(r) for r in ex(io.BytesIO(data), None)] != j3:
                 rec["repeat_stable"] = False
+            if any(json.dumps(os.path.basename(f))[1:-1] in j for j in j3):
+                rec["history"].append("an extraction without a path reports the path of an earlier extraction")
         except Exception as e:
             rec["nopath_error"] = type(e).__name__
+        # results handed out earlier must not change when the process extracts something else
+        if [js(r) for r in res] != j1:
+            rec["history"].append("to_json() of an earlier result changed after later extractions in the same process")
         out[name] = rec
     except Exception as e:
         out[name] = {"error": type(e).__name__}
@@ -174,6 +195,13 @@ def odt_with_styles(names, extra_body="", only_body=None):
         body += f'<text:p>inline picture {k}: {frame.format(k)} after it</text:p>'
         body += f'<text:p>linked picture {k}: <text:a xlink:href="https://example.org/{k}">{frame.format(10 + k)}</text:a> and a plain <text:a xlink:href="https://example.org/p{k}">link {k}</text:a></text:p>'
         body += (f'<text:p><draw:frame draw:name="box{k}"><draw:text-box><text:p>caption in a text box {k}</text:p></draw:text-box></draw:frame></text:p>')
+    # tables whose extracted rows are ragged: a cell spanning columns is followed by covered cells
+    cell = lambda t, span="": f'<table:table-cell{span}><text:p>{t}</text:p></table:table-cell>'
+    body += ('<text:h text:outline-level="1">Tables</text:h><table:table table:name="Ragged"><table:table-column table:number-columns-repeated="3"/>'
+             '<table:table-row>' + cell("wide", ' table:number-columns-spanned="3"') + '<table:covered-table-cell/><table:covered-table-cell/></table:table-row>'
+             '<table:table-row>' + cell("a") + cell("b") + cell("c") + '</table:table-row>'
+             '<table:table-row>' + cell("two", ' table:number-columns-spanned="2"') + '<table:covered-table-cell/>' + cell("z") + '</table:table-row></table:table>'
+             '<text:h text:outline-level="1">After the table</text:h><text:p>closing paragraph</text:p>')
     body += extra_body
     if only_body is not None:
         body = only_body
@@ -198,6 +226,11 @@ def docx_with_styles(names):
     ids = [f"S{i}" for i in range(len(names))]
     paras = "".join(f'<w:p><w:pPr><w:pStyle w:val="{i}"/></w:pPr><w:r><w:t>paragraph {k}</w:t></w:r></w:p>' for k, i in enumerate(ids))
     paras += "".join(f'<w:p><w:pPr><w:pStyle w:val="{esc(n)}"/></w:pPr><w:r><w:t>direct {k}</w:t></w:r></w:p>' for k, n in enumerate(names))
+    tc = lambda t, span=0: (f'<w:tc><w:tcPr>' + (f'<w:gridSpan w:val="{span}"/>' if span else '') + f'</w:tcPr><w:p><w:r><w:t>{t}</w:t></w:r></w:p></w:tc>')
+    paras += ('<w:p><w:pPr><w:pStyle w:val="Heading1"/></w:pPr><w:r><w:t>First heading</w:t></w:r></w:p><w:p><w:r><w:t>text one</w:t></w:r></w:p>'
+              '<w:tbl><w:tr>' + tc("wide", 3) + '</w:tr><w:tr>' + tc("a") + tc("b") + tc("c") + '</w:tr><w:tr>' + tc("two", 2) + tc("z") + '</w:tr></w:tbl>'
+              '<w:p><w:pPr><w:pStyle w:val="Heading1"/></w:pPr><w:r><w:t>Second heading</w:t></w:r></w:p><w:p><w:r><w:t>text two</w:t></w:r></w:p>'
+              '<w:p><w:pPr><w:pStyle w:val="Heading2"/></w:pPr><w:r><w:t>Third heading</w:t></w:r></w:p><w:p><w:r><w:t>text three</w:t></w:r></w:p>')
     # hyperlinks, several of them repeated (same text / same target)
     links = [("alpha", "https://example.org/a"), ("beta", "https://example.org/b"), ("gamma", "https://example.org/c"), ("alpha", "https://example.org/a"),
              ("delta", "https://example.org/d"), ("beta", "https://example.org/b"), ("epsilon", "https://example.org/a"), ("alpha", "https://example.org/z")]
@@ -306,6 +339,32 @@ def synth_corpus(repo):
            "c06_whitespace_only.odt": odt_with_styles(NAME_POOL[:2], only_body="<text:p> </text:p><text:p><text:s text:c=\"3\"/></text:p>"),
            "c06_no_body_text.odt": odt_with_styles(NAME_POOL[:2], only_body="")}
     res = os.path.join(repo, "sharepoint2text/tests/resources")
+    # optional parts absent: packages without meta.xml (several, so that what one leaves behind in the process meets another one)
+    for fixture in ("open_office/headings.odt", "open_office/sample_document.odt", "open_office/sample_spreadsheet.ods",
+                    "open_office/sample_presentation.odp", "open_office/drawing.odg"):
+        try:
+            raw = open(os.path.join(res, fixture), "rb").read()
+            out["c06_no_meta_" + os.path.basename(fixture)] = with_part(raw, "meta.xml", None)
+        except (OSError, KeyError, zipfile.BadZipFile):
+            pass
+    out["c06_no_meta_synthetic.odt"] = with_part(odt_with_styles(NAME_POOL[:4]), "meta.xml", None)
+    # member names that differ only in case, referenced with yet another spelling (case-insensitive producers / file systems)
+    try:
+        raw = open(os.path.join(res, "modern_ms/pptx_formula_image.pptx"), "rb").read()
+        z = zipfile.ZipFile(io.BytesIO(raw))
+        rels_name = next(n for n in z.namelist() if n.startswith("ppt/slides/_rels/") and b"/media/" in z.read(n))
+        rels = z.read(rels_name).decode("utf-8")
+        import re as _re
+        target = _re.search(r'Target="(\.\./media/[^"]+)"', rels).group(1)
+        base = target.rsplit("/", 1)[1]
+        odd = "".join(c.upper() if i % 2 else c.lower() for i, c in enumerate(base))       # a spelling no member has
+        doc = with_part(raw, rels_name, rels.replace(target, "../media/" + odd).encode("utf-8"))
+        doc = with_part(doc, "ppt/media/" + base, jpeg(640, 480))
+        doc = with_part(doc, "ppt/media/" + base.capitalize(), jpeg(320, 200))
+        doc = with_part(doc, "ppt/media/" + base.swapcase(), jpeg(111, 222))
+        out["c06_case_variant_members.pptx"] = doc
+    except Exception:  # noqa -- fixture missing / shaped differently: the corpus simply lacks this document
+        pass
     for fixture, tag in (("modern_ms/mwe.xlsx", "xlsx"), ("modern_ms/headings.docx", "docx"), ("modern_ms/pptx_table.pptx", "pptx")):
         try:
             raw = open(os.path.join(res, fixture), "rb").read()
@@ -401,6 +460,42 @@ def mismatches(repo, scope="all", seeds=(1, 2)):
     """[(file, kind, detail)] over the corpus: fresh processes with different hash seeds (and start times), opposite corpus
     order; per process: repeated extraction, extraction without a path, observers interleaved with to_json()."""
     synth = write_synth(repo)
+    # one check asks for the same corpus run once per violated obligation: keep the observations of a run for a few minutes,
+    # keyed by the exact source text of the tree under test
+    import time
+    h = hashlib.sha256()
+    for dp, _dn, fs in sorted(os.walk(os.path.join(repo, "sharepoint2text"))):
+        if os.sep + "tests" in dp:
+            continue
+        for fn in sorted(fs):
+            if fn.endswith(".py"):
+                with open(os.path.join(dp, fn), "rb") as fh:
+                    h.update(fn.encode() + b"\0" + fh.read())
+    with open(os.path.abspath(__file__), "rb") as fh:
+        h.update(fh.read())
+    cache = os.path.join(SYNTH_DIR, f"run_{h.hexdigest()[:20]}_{scope}_{'-'.join(map(str, seeds))}.json")
+    try:
+        if time.time() - os.path.getmtime(cache) < 600:
+            got = json.load(open(cache))
+            return [tuple(x) for x in got[0]], got[1]
+    except (OSError, ValueError):
+        pass
+    r = _mismatches_uncached(repo, synth, scope, seeds)
+    if r is not None:
+        try:
+            tmp = cache + f".{os.getpid()}.tmp"
+            with open(tmp, "w") as fh:
+                json.dump([r[0], r[1]], fh)
+            os.replace(tmp, cache)
+            for old in os.listdir(SYNTH_DIR):
+                if old.startswith("run_") and time.time() - os.path.getmtime(os.path.join(SYNTH_DIR, old)) > 3600:
+                    os.unlink(os.path.join(SYNTH_DIR, old))
+        except OSError:
+            pass
+    return r
+
+
+def _mismatches_uncached(repo, synth, scope, seeds):
     procs = [start(s, repo, synth, "fwd" if i % 2 == 0 else "rev", scope) for i, s in enumerate(seeds)]
     runs = [collect(p) for p in procs]
     if not all(runs):
@@ -415,6 +510,8 @@ def mismatches(repo, scope="all", seeds=(1, 2)):
             out.append((f, "input buffer modified", ""))
         if not all(r.get(f, {}).get("observer_stable", True) for r in runs):
             out.append((f, "to_json() changed by observers (units / images / streams read)", ""))
+        for h in sorted({h for r in runs for h in r.get(f, {}).get("history", [])}):
+            out.append((f, h, ""))
         if not all(r.get(f, {}).get("repeat_stable", True) for r in runs):
             out.append((f, "to_json() differs between two extractions in one process (second one with the input cursor at offset 7)", ""))
         for rb in runs[1:]:
